@@ -80,9 +80,8 @@ def check_object(t, v, obj, ctx, res, vmode):
         f = dict(f0, action=action, last_kind=lt[0] if lt else None, n_index=len(idx), through_ref="*" in vpath, path_len=len(vpath))
         out.append(common.violation("C02." + action, failure, f, dict(type=t, type_str=xt.show(t), vmode=vmode, vpath=common.jsonable(list(vpath)), index=list(idx), action=action), detail))
 
-    calls = list(cseam.calls_for_object(t, v, obj))
-    for ci, c in enumerate(calls):
-        if ci == len(calls) // 2 and ci > 0:
+    def one_call(ci, c, ncalls):
+        if ncalls and ci == ncalls // 2 and ci > 0:
             obj._buffer.grow(8)  # relocation between two series of calls of the same kernels
             res.events["grow-between-calls"] += 1
         base = cseam.base_address(obj._buffer)
@@ -97,7 +96,7 @@ def check_object(t, v, obj, ctx, res, vmode):
             r = getattr(ctx.kernels, kern.c_name)(obj=arg, **kw)
         except Exception as e:
             bad(action, "call-raises:" + type(e).__name__, repr(e), vpath, idx, lt)
-            continue
+            return
         res.events[action] += 1
         if c["kind"] == "val":
             if not xt.veq(xt.pyval(r), c["expect"]):
@@ -109,6 +108,32 @@ def check_object(t, v, obj, ctx, res, vmode):
         else:
             if int(r) != c["expect"]:
                 bad(action, "result-differs", "%s(%r) = %d, Python reports %d" % (kern.c_name, kw, int(r), c["expect"]), vpath, idx, lt)
+
+    calls = list(cseam.calls_for_object(t, v, obj))
+    for ci, c in enumerate(calls):
+        one_call(ci, c, len(calls))
+    # second series: every reference field of a struct is REBOUND through another Python object for the same bytes (a view
+    # rebuilt from the buffer); what the original handle reports afterwards is compared with C again
+    rebinds = [(n, ft) for n, ft in t[1] if ft[0] in ("R", "U")] if t[0] == "St" else []
+    if rebinds:
+        try:
+            xt.read(t, obj)  # the handle has looked at everything before
+            view = cls._from_buffer(obj._buffer, obj._offset)
+            v = dict(v)
+            for n, ft in rebinds:
+                tt = ft[1] if ft[0] == "R" else ft[1][-1]
+                fresh = xt.gen(tt, "alt")
+                if not xt.py_expressible(tt, fresh):
+                    continue
+                setattr(view, n, xt.to_py(tt, fresh) if ft[0] == "R" else (xt.build(tt).__name__, xt.to_py(tt, fresh)))
+                v[n] = fresh if ft[0] == "R" else (len(ft[1]) - 1, fresh)
+                res.events["rebind-through-view"] += 1
+            calls = list(cseam.calls_for_object(t, v, obj))
+        except Exception as e:
+            res.skipped["rebind(C08's business):" + common.exc_failure(e)] += 1
+            calls = []
+        for ci, c in enumerate(calls):
+            one_call(ci, c, 0)
     return out
 
 
